@@ -43,7 +43,7 @@ REQUIRED = dict(monitors=['restricted-equals-full', 'restricted-grid-is-subset',
                          'request:foreign-shifted-same-count', 'request:own-sub-range', 'request:foreign-random',
                          'requested-order:ascending', 'requested-order:descending', 'requested-order:shuffled',
                          'emission:same-size-window', 'emission:star-written-between-evaluations',
-                         'request:work-array-refilled-in-place'])
+                         'request:work-array-refilled-in-place', 'request:foreign-ending-on-an-end-point'])
 CUT = math.exp(-10.0)
 
 
@@ -408,7 +408,10 @@ def judge_request(ctx, op, t, p, grid, fullv, wn, layout, kind):
         tol = 1e-12 * np.abs(hi_v)
         ok = ok and bool(np.all(vv[j] >= lo_v - tol) and np.all(vv[j] <= hi_v + tol))
     ctx.check('opacity-foreign-points-between-neighbours', ok, layout=layout, n_foreign=len(grid), n_native=len(wn),
-              request=[float(np.min(grid)), float(np.max(grid))], native=[float(wn[0]), float(wn[-1])], kind=kind)
+              request=[float(np.min(grid)), float(np.max(grid))], native=[float(wn[0]), float(wn[-1])], kind=kind,
+              request_dtype=str(np.asarray(grid).dtype), native_dtype=str(np.asarray(wn).dtype),
+              got_first=np.asarray(vv[0]).ravel()[:3], native_first=np.asarray(fv[0]).ravel()[:3],
+              native_second=np.asarray(fv[min(1, len(wn) - 1)]).ravel()[:3], grid=np.asarray(grid, dtype=float)[:6])
 
 
 def wl_opacity(ctx, rng):
@@ -422,7 +425,8 @@ def wl_opacity(ctx, rng):
     p = float(10 ** rng.uniform(np.log10(P[0]) - 1, np.log10(P[-1]) + 1))
     fullv = np.array(op.opacity(t, p))
     kinds = ['own-sub-range', 'foreign-random']
-    extra = ['own-full', 'foreign-same-ends-and-count', 'foreign-shifted-same-count', 'own-sub-range', 'foreign-random', 'own-full']
+    extra = ['own-full', 'foreign-same-ends-and-count', 'foreign-shifted-same-count', 'own-sub-range', 'foreign-random', 'own-full',
+             'foreign-ending-on-an-end-point', 'foreign-ending-on-an-end-point']
     kinds += [extra[k] for k in rng.integers(0, len(extra), int(rng.integers(1, 5)))]
     kinds = [kinds[k] for k in rng.permutation(len(kinds))]
     done = []
@@ -443,6 +447,17 @@ def wl_opacity(ctx, rng):
             grid = np.unique(grid)
             if len(grid) != len(wn):
                 continue
+        elif kind == 'foreign-ending-on-an-end-point':
+            # a request outside the table that TOUCHES it: its last point is the first native point, or its first point the
+            # last native one (two tables / instruments that meet at a wavenumber)
+            span = float(wn[-1] - wn[0])
+            kf = int(rng.integers(2, 8))
+            if rng.random() < 0.5:
+                grid = np.linspace(float(wn[0]) - float(rng.uniform(0.05, 0.5)) * span, float(wn[0]), kf)
+                grid[-1] = wn[0]
+            else:
+                grid = np.linspace(float(wn[-1]), float(wn[-1]) + float(rng.uniform(0.05, 0.5)) * span, kf)
+                grid[0] = wn[-1]
         elif kind == 'foreign-shifted-same-count':
             grid = wn + float(rng.uniform(-0.4, 0.4)) * float(np.min(np.diff(wn)))
         else:
@@ -452,7 +467,7 @@ def wl_opacity(ctx, rng):
         if not np.any((wn >= grid.min()) & (wn <= grid.max())):
             ctx.event('domain-skip:request-contains-no-native-point')
             continue
-        if len(grid) in work and rng.random() < 0.7:
+        if len(grid) in work and work[len(grid)].dtype == np.asarray(grid).dtype and rng.random() < 0.7:
             grid = led.refill(work[len(grid)], grid)
             ctx.observe('request:work-array-refilled-in-place')
         else:
